@@ -9,7 +9,7 @@ import (
 
 var MenuCore = []string{
 	"c1:", "s1:", "c1:xfer", "c1:clear", "c1:vupdate(s1)", "c1:vdeposit(s1)", "c1:vwithdraw(s1)", "c1:voff(s1)",
-	"c1:dadd(s1)", "c1:dsub(s1)", "c1:dsuball(s1)", "c1:vcreate(n1)", "c1:!dsign(s1)",
+	"c1:dadd(s1)", "c1:dsub(s1)", "c1:dsuball(s1)", "c1:vcreate(n1)", "c1:vcreatelow(n1)", "c1:!dsign(s1)",
 }
 
 var MenuMore = []string{
